@@ -289,6 +289,18 @@ impl Default for InjectorPP {
     }
 }
 
+impl Drop for InjectorPP {
+    fn drop(&mut self) {
+        // Undo the patches in reverse installation order. When the same function was faked
+        // more than once, each guard saved the bytes it overwrote, so only unwinding them
+        // newest-first ends with the true original bytes (and never leaves a branch into a
+        // trampoline that has already been freed).
+        while let Some(guard) = self.guards.pop() {
+            drop(guard);
+        }
+    }
+}
+
 /// A guard that prevents injectorpp affecting the test while alive.
 ///
 /// When this guard is held, no any injectorpp instance can be created.
